@@ -84,7 +84,6 @@ let do_cmd () =
   if not !have_av then raise Bad;
   let p = cmd_parse !opts ign !av in
   if p.p_fuel then "<model out of fuel>"
-  else if p.p_ub then "<crash>"
   else begin
     let nullv v = match v with [] -> None | _ -> Some v in
     let params = String.concat "" (List.map (fun (k, ps) ->
